@@ -413,6 +413,8 @@ def spaces(tier):
                   describe="all trees with 3 binary nodes over all 20 binary classes"),
             Space("levels-k4", lambda: gen_k3_levels(("B",), 4), check_trees, variant="fast",
                   describe="all trees with 4 binary nodes over the 10 precedence levels"),
+            Space("levels-k5", lambda: gen_k3_levels(("B",), 5), check_trees, variant="fast",
+                  describe="all trees with 5 binary nodes over the 10 precedence levels (42 shapes x 10^5 operator choices)"),
             Space("values-stock-k3", lambda: gen_values(3), check_values, variant="fast",
                   describe="value-level comparison, 3 binary nodes"),
         ]
